@@ -58,19 +58,27 @@ class DexInterp(Interp):
     """Interp with the stream / ClassManager / constructor model plugged in."""
 
     def __init__(self, repo, folder=None, asg=None, construct=None, serials=False, on_new=None,
-                 inline_module=None, on_cm_call=None):
+                 inline_module=None, on_cm_call=None, opaque_default=None):
+        self.opaque_default = opaque_default
         self.construct = construct or (lambda cls: False)
         self.serials = serials
         self.serial = 0
         self.on_new = on_new
         self.on_cm_call = on_cm_call
         self.new_log = []  # (cls, obj, args)
-        hooks = {"method": self._h_method, "call": self._h_call}
+        hooks = {"method": self._h_method, "call": self._h_call, "subscript": self._h_subscript}
         if inline_module is not None:
             hooks["inline_funcs"] = {f.qualname for f in inline_module.functions.values()
                                      if f.cls is None and f.name not in LEB_READERS
                                      and f.name != "read_null_terminated_string"}
         super().__init__(repo, folder, asg=asg, hooks=hooks)
+
+    def unknown(self, v, node, func):
+        """opaque_default=False: follow only the path on which every opaque validation test is false
+        (the 'all checks pass' path of `if bad: raise` style code) instead of splitting"""
+        if self.opaque_default is not None:
+            return self.opaque_default
+        return super().unknown(v, node, func)
 
     # ---- streams ------------------------------------------------------------
     def _stream_read(self, st, n, node):
@@ -160,15 +168,12 @@ class DexInterp(Interp):
             self.on_new(cls, o, args)
         return o
 
-    # Comp[idx] / for-loops over a Comp whose element is an abstract object: the representative element
-    def e_Subscript(self, e, env, func):
-        if not isinstance(e.slice, ast.Slice):
-            base = self.eval(e.value, env, func)
-            if isinstance(base, Comp) and base.kind == "list" and isinstance(base.elt, Obj):
-                k = self.eval(e.slice, env, func)
-                base.elt.attrs["__selected_by__"] = k
-                return base.elt
-        return super().e_Subscript(e, env, func)
+    # Comp[idx] where the comprehension's element is an abstract object: the representative element
+    def _h_subscript(self, it, base, k, e, func):
+        if isinstance(base, Comp) and base.kind == "list" and isinstance(base.elt, Obj):
+            base.elt.attrs["__selected_by__"] = k
+            return base.elt
+        return NotImplemented
 
 
 def bind_ctor_args(cls, stream, cm, size=None):
